@@ -324,7 +324,7 @@ def correspond(ctx):
             # reported fields vs recomputation
             for key, val in (('primal infeasibility', pres), ('dual infeasibility', dres), ('gap', float(d['gap'])), ('primal objective', float(d['pcost'])), ('dual objective', float(d['dcost']))):
                 rep = r.get(key)
-                if rep is None or not certlib.close(rep, val, 1e-3, 1e-9):
+                if rep is None or not certlib.close(rep, val, 1e-3, 1e-12 if 'infeasibility' in key else 1e-9):
                     ctx.violation('c04:fields:cpl:' + key.replace(' ', '-'), 'cpl reported %s = %r, recomputed from the returned vectors %r' % (key, rep, val), desc); break
         else:
             ft = 10 * t[0]
